@@ -280,7 +280,7 @@ func (g *genState) next(p *scriptProfile) {
 
 // runScripts generates n scripts with the given profile, emits them as
 // correspondence cases and calls check on each finished script.
-func runScripts(c *hx.Ctx, n int, p *scriptProfile, fixed [][]*sop, check func(g *genState, desc map[string]any)) {
+func runScripts(c *hx.Ctx, n int, p *scriptProfile, fixed [][]*sop, wrap bool, check func(g *genState, desc map[string]any)) {
 	prev := runtime.GOMAXPROCS(1)
 	defer runtime.GOMAXPROCS(prev)
 	ids := newIdentities(c.Rng, 3)
@@ -299,7 +299,11 @@ func runScripts(c *hx.Ctx, n int, p *scriptProfile, fixed [][]*sop, check func(g
 			}
 		}
 		desc := map[string]any{"profile": p.name, "script": g.r.descOps, "index": i}
-		c.Case(g.r.caseTerm(), desc)
+		if wrap {
+			c.Case(hx.App("SC", g.r.caseTerm()), desc)
+		} else {
+			c.Case(g.r.caseTerm(), desc)
+		}
 		key := fmt.Sprint(g.r.opTerms)
 		if len(g.r.recvGot()) > 0 || len(g.r.sends) > 0 {
 			c.Nontrivial(key)
